@@ -24,6 +24,22 @@ CHECKS = {
   "proptest window-biased program generation + differential execution against a reference window evaluator",
   "Window-biased programs (partition x sort x frame kind x bounds x function x placement) are executed on SQLite and compared row by row with a reference window evaluation; the comparison also fixes the row count.",
   MODEL_NOTE, "DESIGN.md §3 C04"),
+ "C14": ("api",
+  "proptest program generation + format/re-parse round trip, idempotence and same-SQL metamorphic oracle",
+  "Generated programs and the repository's queries are formatted, re-parsed and compared as syntax trees without spans/doc comments; formatting twice must be a fixed point; both texts must compile to the same SQL.",
+  "Trusted: serde's JSON form of the PL tree as the notion of 'same syntax tree'. One recorded finding (integral float literals).", "DESIGN.md §3 C14"),
+ "C15": ("api",
+  "proptest program generation x dialect/options + JSON round-trip and staged-vs-one-shot differential oracle",
+  "PL and RQ must survive JSON (equal value, identical re-serialisation) and the staged chain through both JSON documents must produce the same SQL or the same errors (kind, code, reason, hints, span) as compile().",
+  "Trusted: PartialEq of the PL/RQ types. Differences must persist over repeated evaluation because compilation is not deterministic (finding C11-column-order-hash-dependent).", "DESIGN.md §3 C15"),
+ "C16": ("rqcheck",
+  "proptest program generation + invariant validator over the resolver's RQ (history-free validity predicate)",
+  "The RQ of every accepted generated program (all constructs enabled) is checked for unique definition, def-before-use and visibility of column ids, declared-before-use table ids, table-reference columns, From..Select pipeline shape and arity, is_aggregation consistency.",
+  "Trusted: the JSON form of RelationalQuery. Sort keys only need def-before-use (the resolver carries sorts past Selects by design; calibrated on the repository's queries). Two recorded findings with exact violation-text predicates.", "DESIGN.md §3 C16"),
+ "C18": ("api",
+  "proptest program generation x exhaustive option-by-header matrix, differential oracle between the option and header paths",
+  "For every generated program the complete matrix option in {none, 12 dialects} x header in {absent, sql.any, 12 dialects, 5 unknown names} is compiled and the documented precedence (option, then header, then generic; unknown is an error; resolver acceptance independent of the header) is checked.",
+  "The matrix is exhaustive per program, programs are sampled. Differences must persist over repeated compilation (compilation is not deterministic).", "DESIGN.md §3 C18"),
  "C17": ("lexenum",
   "exhaustive small-scope enumeration + proptest random fragment strings against a tiling / re-lex round-trip oracle",
   "Every string up to length 5 (quick) / 6 (thorough) over five themed alphabets of lexically significant characters is lexed and checked against the tiling and re-lex oracle (exhaustive within that bound), plus random fragment concatenations up to 200 chars. Holds on everything explored; says nothing beyond the bound except by sampling.",
@@ -60,6 +76,8 @@ def main():
         },
         "engines": [
             {"name": "model", "path": "harness/src/model", "serves_properties": ["C01", "C02", "C03", "C04"], "kind_free_text": "tape-decoded abstract programs, PRQL printer, reference interpreter, in-process SQLite executor"},
+            {"name": "api", "path": "harness/src/prop", "serves_properties": ["C14", "C15", "C18"], "kind_free_text": "round-trip / differential / metamorphic oracles over the public prqlc API on generated programs"},
+            {"name": "rqcheck", "path": "harness/src/rqcheck.rs", "serves_properties": ["C16"], "kind_free_text": "validator of RQ invariants over the JSON form of RelationalQuery"},
             {"name": "lexenum", "path": "harness/src/prop/c17.rs", "serves_properties": ["C17"], "kind_free_text": "exhaustive enumeration of short strings + proptest tape search"},
         ],
         "checks": checks,
